@@ -389,6 +389,8 @@ class SArr(real_np.ndarray):
                 ax += 1
                 continue
             if isinstance(t, real_np.ndarray):
+                if isinstance(t, SArr):
+                    t = real_np.ndarray.view(t, real_np.ndarray)
                 if t.dtype == object:
                     flat = [x for x in t.flat]
                     if flat and all(isinstance(x, (Sym, bool, real_np.bool_)) and (not isinstance(x, Sym) or x.kind == 'b') for x in flat):
@@ -419,7 +421,12 @@ class SArr(real_np.ndarray):
             if isinstance(t, Sym):
                 if t.kind == 'b':
                     raise ModelGap('boolean scalar index')
-                e = t.as_int()
+                e = z3.simplify(t.as_int())
+                hit = c.extra.get('known', {}).get(e.get_id())
+                if hit is not None and -n <= hit[1] < n:
+                    out.append(hit[1])
+                    ax += 1
+                    continue
                 site = _site()
                 bad = z3.Or(e < -n, e >= n)
                 if c.feasible(bad):
@@ -474,11 +481,11 @@ class SArr(real_np.ndarray):
             return real_np.ndarray.__setitem__(self, i, v)
         dt = self.dtype.dt
         if isinstance(v, real_np.ndarray):
-            if v.dtype != object or dt.kind != 'O':
-                src = v
-                v = real_np.empty(src.shape, dtype=object)
-                for idx in real_np.ndindex(*src.shape):
-                    v[idx] = cast_value(real_np.ndarray.__getitem__(src, idx) if src.dtype == object else src[idx], dt)
+            src = real_np.ndarray.view(v, real_np.ndarray)
+            v = real_np.empty(src.shape, dtype=object)
+            for idx in real_np.ndindex(*src.shape):
+                x = src[idx]
+                v[idx] = cast_value(x.item() if isinstance(x, real_np.generic) else x, dt)
         elif isinstance(v, (list, tuple)):
             v = real_np.array([cast_value(x, dt) for x in v], dtype=object) if v and not isinstance(v[0], (list, tuple)) else v
         else:
